@@ -37,6 +37,71 @@ def strip_docstrings(node):
     return node
 
 
+# ------------------------------------------------------------------------------ local-variable renaming (alpha equivalence)
+def local_names(fn):
+    """names bound inside the function (assignment / loop / with / except / comprehension targets), in order of first occurrence;
+    parameters, globals and attribute names are not locals in this sense (renaming a parameter changes the keyword interface)"""
+    params = {a.arg for a in fn.args.args + fn.args.kwonlyargs + fn.args.posonlyargs}
+    if fn.args.vararg:
+        params.add(fn.args.vararg.arg)
+    if fn.args.kwarg:
+        params.add(fn.args.kwarg.arg)
+    declared = set()
+    out = []
+    for x in ast.walk(fn):
+        if isinstance(x, (ast.Global, ast.Nonlocal)):
+            declared.update(x.names)
+    for x in _walk_in_order(fn):
+        nm = None
+        if isinstance(x, ast.Name) and isinstance(x.ctx, (ast.Store, ast.Del)):
+            nm = x.id
+        elif isinstance(x, ast.ExceptHandler) and x.name:
+            nm = x.name
+        elif isinstance(x, (ast.FunctionDef, ast.AsyncFunctionDef)) and x is not fn:
+            nm = x.name
+        if nm and nm not in params and nm not in declared and nm not in out:
+            out.append(nm)
+    return out
+
+
+def _walk_in_order(node):
+    yield node
+    for c in ast.iter_child_nodes(node):
+        yield from _walk_in_order(c)
+
+
+class _Rename(ast.NodeTransformer):
+    def __init__(self, mp):
+        self.mp = mp
+
+    def visit_Name(self, n):
+        if n.id in self.mp:
+            n.id = self.mp[n.id]
+        return n
+
+    def visit_ExceptHandler(self, n):
+        if n.name in self.mp:
+            n.name = self.mp[n.name]
+        self.generic_visit(n)
+        return n
+
+    def visit_FunctionDef(self, n):
+        if n.name in self.mp:
+            n.name = self.mp[n.name]
+        self.generic_visit(n)
+        return n
+
+
+def alpha_signature(fn):
+    """(hash of the function with its locals renamed canonically, the locals in canonical order)"""
+    import copy
+    names = local_names(fn)
+    c = copy.deepcopy(fn)
+    _Rename({nm: f"_v{i}" for i, nm in enumerate(names)}).visit(c)
+    c.name = "_f"
+    return hashlib.sha256(ast.dump(c).encode()).hexdigest()[:16], names
+
+
 class Repo:
     """Index of the package source as it is *now* in the working tree."""
 
@@ -68,6 +133,41 @@ class Repo:
                 elif isinstance(n, ast.FunctionDef):
                     self.functions[(rel, n.name)] = n
                     self.func_by_name.setdefault(n.name, []).append((rel, n))
+        self.renamed = {}
+        self._restore_local_names()
+
+    def all_functions(self):
+        """(key 'file::qualname', FunctionDef) of every module-level function and method"""
+        for (rel, name), fn in self.functions.items():
+            yield f"{rel}::{name}", fn
+        for lst in self.classes.values():
+            for ci in lst:
+                for m, fn in ci.methods.items():
+                    yield f"{ci.file}::{ci.name}.{m}", fn
+
+    def alpha_table(self):
+        return {k: dict(zip(("alpha", "locals"), alpha_signature(fn))) for k, fn in self.all_functions()}
+
+    def _restore_local_names(self):
+        """The sidecar contracts name loop-carried locals of the validated tree (baseline/locals.json). A function that differs from its
+        validated version ONLY by a consistent renaming of local variables is renamed back mechanically before it is executed
+        symbolically (a renaming of locals preserves behaviour); anything else is left exactly as it is."""
+        import json
+        p = os.path.join(os.path.dirname(os.path.dirname(os.path.abspath(__file__))), "baseline", "locals.json")
+        if not os.path.exists(p) or os.environ.get("VERIF_NO_ALPHA"):
+            return
+        base = json.load(open(p))
+        for key, fn in self.all_functions():
+            b = base.get(key)
+            if b is None:
+                continue
+            h, names = alpha_signature(fn)
+            if h == b["alpha"] and names != b["locals"] and len(names) == len(b["locals"]):
+                mp = {cur: old for cur, old in zip(names, b["locals"]) if cur != old}
+                # two-step renaming (through fresh names) so that swaps are handled
+                _Rename({cur: f"__tmp_{i}__" for i, cur in enumerate(mp)}).visit(fn)
+                _Rename({f"__tmp_{i}__": mp[cur] for i, cur in enumerate(mp)}).visit(fn)
+                self.renamed[key] = mp
 
     # ------------------------------------------------------------------ lookup
     def cls(self, name, file=None):
